@@ -56,6 +56,21 @@ def graph_holds_secret(root, secrets, limit=60000):
             continue
         if isinstance(o, (str, float, type, types.ModuleType, types.FunctionType, types.BuiltinFunctionType, types.MethodType, types.CodeType)):
             continue
+        # a cached primitive-library private key object holds the secret integers inside it
+        if 'PrivateKey' in type(o).__name__ and (hasattr(o, 'private_numbers') or hasattr(o, 'private_bytes')):
+            try:
+                if hasattr(o, 'private_numbers'):
+                    pn = o.private_numbers()
+                    vals = [getattr(pn, a_) for a_ in ('d', 'p', 'q', 'x', 'private_value') if hasattr(pn, a_)]
+                else:
+                    from cryptography.hazmat.primitives import serialization as _ser
+                    raw_ = o.private_bytes(_ser.Encoding.Raw, _ser.PrivateFormat.Raw, _ser.NoEncryption())
+                    vals = [int.from_bytes(raw_, 'big'), int.from_bytes(raw_[::-1], 'big')]
+                if any(v_ in ints for v_ in vals):
+                    return True
+            except Exception:
+                pass
+            continue
         try:
             stack.extend(gc.get_referents(o))
         except Exception:
